@@ -1186,6 +1186,23 @@ def rule_rd_default(prog: Program, report: Report, pid: str) -> None:
         rv = _reviewed(v)
         if rv is None:
             continue
+        # defaults written in the signature: the value a caller gets by not passing the argument
+        a_ = fn.node.args
+        pos_ = [*a_.posonlyargs, *a_.args]
+        sig_now = {q.arg: dflt for q, dflt in zip(pos_[len(pos_) - len(a_.defaults):], a_.defaults)}
+        sig_now.update({q.arg: dflt for q, dflt in zip(a_.kwonlyargs, a_.kw_defaults) if dflt is not None})
+        for p_, d in sorted((rv.get("sig") or {}).items()):
+            if p_ not in sig_now:
+                continue  # the parameter is gone or became required: a signature change, not judged here
+            try:
+                old_d = ast.parse(d, mode="eval").body
+            except SyntaxError:
+                continue
+            n += 1
+            if ast.dump(old_d) == ast.dump(sig_now[p_]) or canon(old_d) == canon(sig_now[p_]):
+                report.ob("RD-default", key, f"parameter `{p_}` keeps its signature default {d[:40]}")
+            else:
+                report.violate("RD-default", fn, sig_now[p_], f"signature default of `{p_}` is `{' '.join(src(sig_now[p_]).split())[:60]}`", f"the reviewed {fn.qual} declares `{p_}={d[:60]}`; now the default is `{' '.join(src(sig_now[p_]).split())[:60]}` - every caller that omits the argument gets another value", what=f"parameter {p_} keeps its reviewed signature default")
         for p_, d in sorted(rv.get("defs", {}).items()):
             if p_ not in fn.params():
                 continue
